@@ -335,3 +335,67 @@ M("c03_guard_reset_frees_later_chunks", ["C03"], ["C03.R4"], [
         if self.bump.stats().count() > 8 { self.bump.reset(); }""")])
 M("c03_checkpoint_stores_end_not_pos", ["C03"], ["C03.R1"], [
     ("src/bump_scope_guard.rs", "let address = chunk.pos().addr();", "let address = unsafe { chunk.header.as_ref().end.addr() };")])
+
+# ---------------------------------------------------------------- C05
+M("c05_manually_drop_skips_next_walk", ["C05"], ["C05.R2"], [
+    ("src/raw_bump.rs", """                chunk.for_each_prev(|chunk| chunk.deallocate());
+                chunk.for_each_next(|chunk| chunk.deallocate());
+                chunk.deallocate();""", """                chunk.for_each_prev(|chunk| chunk.deallocate());
+                chunk.deallocate();""")])
+M("c05_release_layout_erased_align", ["C05"], ["C05.R4"], [
+    ("src/raw_bump.rs", "unsafe { Layout::from_size_align_unchecked(self.size().get(), align_of::<ChunkHeader<A>>()) }",
+     "unsafe { Layout::from_size_align_unchecked(self.size().get(), align_of::<ChunkHeader>()) }")])
+M("c05_reset_frees_survivor", ["C05"], ["C05.R3"], [
+    ("src/raw_bump.rs", """            while let Some(next) = chunk.next() {
+                chunk.deallocate();
+                chunk = next;
+            }
+
+            chunk.header.as_ref().prev.set(None);""", """            while let Some(next) = chunk.next() {
+                chunk = next;
+                chunk.deallocate();
+            }
+
+            chunk.header.as_ref().prev.set(None);""")])
+M("c05_reset_keeps_prev_link", ["C05"], ["C05.R3"], [
+    ("src/raw_bump.rs", """            chunk.header.as_ref().prev.set(None);
+        }
+
+        chunk.reset();""", """        }
+
+        chunk.reset();""")])
+M("c05_for_each_prev_reads_after_callback", ["C05"], ["C05.R2"], [
+    ("src/raw_bump.rs", """        while let Some(chunk) = iter {
+            iter = chunk.prev();
+            f(chunk);
+        }""", """        while let Some(chunk) = iter {
+            f(chunk);
+            iter = chunk.prev();
+        }""")])
+M("c05_into_raw_drops", ["C05"], ["C05.R2"], [
+    ("src/bump.rs", "ManuallyDrop::new(self).raw.clone().into_raw()", "{ let p = self.raw.clone().into_raw(); drop(ManuallyDrop::new(0u8)); p }")])
+M("c05_raw_bump_grows_chunk_via_base_allocator", ["C05"], ["C05.R1"], [
+    ("src/raw_bump.rs", """    #[inline(always)]
+    pub(crate) fn reclaim(&self, claimant: &RawBump<A, S>) {
+        self.chunk.set(claimant.chunk.get());
+    }""", """    #[inline(always)]
+    pub(crate) fn reclaim(&self, claimant: &RawBump<A, S>) {
+        self.chunk.set(claimant.chunk.get());
+        if let Some(chunk) = self.chunk.get().as_non_dummy() {
+            if chunk.capacity() == usize::MAX {
+                let _ = unsafe { chunk.allocator().shrink(chunk.chunk_start(), chunk.layout(), chunk.layout()) };
+            }
+        }
+    }""")])
+M("c05_deallocate_reads_header_after_free", ["C05"], ["C05.R4"], [
+    ("src/raw_bump.rs", """        let ptr = self.chunk_start();
+        let layout = self.layout();
+
+        unsafe {
+            allocator.deallocate(ptr, layout);
+        }""", """        let ptr = self.chunk_start();
+
+        unsafe {
+            allocator.deallocate(ptr, self.layout());
+            let _ = self.chunk_end();
+        }""")])
